@@ -184,6 +184,14 @@ func runC02(c *Ctx) {
 	ruleLoopVar(c, "OWNCONN", "service")
 	// a connection closed with SO_LINGER 0 is reset: what was queued for the client but not yet sent is discarded
 	ruleNoReset(c)
+	// "for every authenticated connection": a relaying connection is not closed because the listener that accepted it was
+	// closed (reload) — nothing in the per-connection code reacts to the serve context
+	ruleSurvive(c)
+	// a relay that stops on an error still drains what the client is sending before it closes (a close with unread data
+	// resets the connection and discards the part of the answer not yet delivered)
+	if a := findTCP(c, "ANCHOR"); a != nil {
+		ruleDrain(c, a)
+	}
 }
 
 // C02.HALFCLOSE
